@@ -14,6 +14,14 @@ mod recorder;
 #[cfg(kani)]
 mod vs_ops;
 #[cfg(kani)]
+mod cffi;
+#[cfg(kani)]
+mod regn;
+#[cfg(kani)]
+mod mock;
+#[cfg(kani)]
+mod c03;
+#[cfg(kani)]
 mod c01;
 #[cfg(kani)]
 mod c04;
